@@ -23,6 +23,15 @@ func Root() string {
 	return "/verif"
 }
 
+// OutRoot is where replays are written: Root() unless VERIF_OUT says otherwise
+// (the driver sets it when it runs the checks against a scratch copy of the repository).
+func OutRoot() string {
+	if r := os.Getenv("VERIF_OUT"); r != "" {
+		return r
+	}
+	return Root()
+}
+
 func Tier() string {
 	if t := os.Getenv("VERIF_TIER"); t == "thorough" {
 		return t
@@ -154,7 +163,7 @@ func (r *Recorder) SetExhaustive(b bool) { r.mu.Lock(); r.exhaustive = b; r.mu.U
 // Violation writes the replay file and prints the VIOLATION line.
 func (r *Recorder) Violation(replay interface{}) string {
 	js, _ := json.MarshalIndent(replay, "", " ")
-	dir := filepath.Join(Root(), "replays")
+	dir := filepath.Join(OutRoot(), "replays")
 	_ = os.MkdirAll(dir, 0o755)
 	path := filepath.Join(dir, fmt.Sprintf("%s-%016x.json", r.ID, Hash(js)))
 	_ = os.WriteFile(path, js, 0o644)
